@@ -21,7 +21,7 @@ func init() {
 		Rule: "long: consumers driven by a position model (committed, delta) with random Get/Commit/Rollback incl. multi-value uncommitted windows and partial re-reads, while other consumers commit and the cleaner shifts underneath; " +
 			"short: 2-5 goroutines sharing consumers, checked by porcupine against the sequential model; seq-exhaustive: every sequence up to length L over {Put1,Put2,New,Get/Commit/Rollback/Close on c0,Get/Commit on c1} run against the model (complete for L<=4 quick, L<=5 thorough); " +
 			"range: package Range through a recording/fault-injecting Consumer decorator (callback false/panic, Get error, Commit error at every step) and Buffer.Range at quiescence and against concurrent Puts. " +
-			"non-trivial = at least one rollback with a re-read or one injected fault was exercised; distinct = distinct traces",
+			"resolve-while-closing: Buffer.Close is waiting for a consumer's uncommitted reads; Commit / Rollback, called with those reads pending, still succeed and let the Close complete. non-trivial = at least one rollback with a re-read or one injected fault was exercised; distinct = distinct traces",
 		Assumptions: []string{
 			"Range runs with exclusive use of its consumer (Buffer.Range racing a Get by another goroutine on the same consumer is out of scope, DESIGN.md §6)",
 			"a commit-before-callback is observed through the decorator's event order (package Range) and through VerifSnapshot inside the callback (Buffer.Range)",
@@ -33,6 +33,7 @@ func init() {
 			{Name: "range-pkg", N: core.TierN(400, 16000), Batch: 30, Run: c02RangePkg},
 			{Name: "range-buffer", N: core.TierN(300, 12000), Batch: 20, Run: c02RangeBuffer},
 			{Name: "range-buffer-faults", N: core.TierN(150, 6000), Batch: 25, Run: c02RangeBufferFaults},
+			{Name: "resolve-while-closing", N: core.TierN(60, 2400), Batch: 20, Run: c02ResolveWhileClosing},
 		},
 	})
 }
@@ -225,7 +226,12 @@ func c02RangePkg(c *core.Ctx) {
 	for i := 0; i < pre; i++ {
 		cons.Get(context.Background())
 	}
-	if pre > 0 {
+	// ... or, in a third of the scenarios, pre-read and leave them uncommitted: whatever Range rolls back then
+	// includes them (the next read starts at the oldest uncommitted value), whatever it commits includes them too
+	pendingBefore := 0
+	if pre > 0 && c.Rng.IntN(3) == 0 {
+		pendingBefore = pre
+	} else if pre > 0 {
 		cons.Commit()
 	}
 	mode := core.Pick(c.Rng, "false", "panic", "geterr", "commiterr", "cancel", "drain-then-cancel")
@@ -274,7 +280,7 @@ func c02RangePkg(c *core.Ctx) {
 		cancel()
 		return
 	}
-	desc := fmt.Sprintf("mode=%s k=%d n=%d pre=%d events=%v", mode, k, n, pre, rc.events)
+	desc := fmt.Sprintf("mode=%s k=%d n=%d pre=%d (left uncommitted: %d) events=%v", mode, k, n, pre, pendingBefore, rc.events)
 	// 1. the callback's indices are 0,1,2,... and values are the consumer's stream from its position
 	for i, v := range visited {
 		if idxs[i] != i {
@@ -317,6 +323,9 @@ func c02RangePkg(c *core.Ctx) {
 		wantNext = 100 + n
 		wantErr = "context"
 	}
+	if pendingBefore > 0 && k == 0 && (mode == "panic" || mode == "geterr" || mode == "commiterr") {
+		wantNext = 100 // the failure came before Range's first commit: the caller's own uncommitted reads are rolled back with it
+	}
 	if wantNext >= 100+n {
 		wantNext = -1
 	}
@@ -346,7 +355,7 @@ func c02RangePkg(c *core.Ctx) {
 	c.Op("range", 1)
 	c.Count("mode_"+mode, 1)
 	c.Nontrivial()
-	c.Sig(mode, k, n, pre, rc.events)
+	c.Sig(mode, k, n, pre, pendingBefore > 0, rc.events)
 	if c.Index < 2 {
 		c.SetHistory(desc)
 	}
@@ -597,4 +606,61 @@ func c02RangeBufferFaults(c *core.Ctx) {
 	c.Op("range_callback", len(visited))
 	c.Nontrivial()
 	c.Sig("bufrangefault", n, mode, k)
+}
+
+// c02ResolveWhileClosing: Buffer.Close (or the cancellation of the buffer's context) is waiting for a consumer's
+// uncommitted reads to be resolved. Resolving them is exactly what Commit and Rollback are for: with reads pending
+// both must still succeed (and only then does Close complete).
+func c02ResolveWhileClosing(c *core.Ctx) {
+	b := newBuffer(cleanerSpec{}, core.Pick(c.Rng, 0, 200*time.Microsecond), nil)
+	cons, err := b.NewConsumer()
+	if err != nil {
+		c.Violate("newconsumer-error", "%v", err)
+		return
+	}
+	n := 1 + c.Rng.IntN(5)
+	for i := 0; i < n; i++ {
+		b.Put(context.Background(), i)
+	}
+	k := 1 + c.Rng.IntN(n)
+	for i := 0; i < k; i++ {
+		if _, err := cons.Get(context.Background()); err != nil {
+			c.Violate("get-error", "%v", err)
+			return
+		}
+	}
+	action := core.Pick(c.Rng, "commit", "commit", "rollback")
+	closed := core.Go(func() { b.Close() })
+	// the close is under way once Put is refused
+	core.WaitUntil(3000, func() bool { return b.Put(context.Background()) != nil })
+	time.Sleep(time.Duration(c.Rng.IntN(300)) * time.Microsecond)
+	var rerr error
+	if !core.AwaitDone(core.Go(func() {
+		if action == "commit" {
+			rerr = cons.Commit()
+		} else {
+			rerr = cons.Rollback()
+		}
+	}), 10000) {
+		c.Violate("resolve-blocked", "%s with %d reads pending did not return while Buffer.Close was waiting for it", action, k)
+		c.SetDump(core.DumpAll())
+		return
+	}
+	if rerr != nil {
+		c.Violate("resolve-refused", "%s with %d reads pending returned %v while Buffer.Close was waiting for exactly that (reads pending: the call must succeed)", action, k, rerr)
+		cons.Rollback()
+	}
+	if !core.AwaitDone(closed, 10000) {
+		c.Violate("close-blocked", "Buffer.Close did not return after the pending reads were resolved by %s (error %v)", action, rerr)
+		c.SetDump(core.DumpAll())
+		return
+	}
+	// nothing pending any more: both calls now report an error and change nothing
+	if cons.Commit() == nil || cons.Rollback() == nil {
+		c.Violate("resolve-twice", "Commit/Rollback succeeded with nothing pending after the close")
+	}
+	c.Op("get", k)
+	c.Op("resolve", 1)
+	c.Nontrivial()
+	c.Sig("resolve-while-closing", n, k, action)
 }
